@@ -225,3 +225,13 @@ Qed.
 Lemma sv_eq_std_overload_adaptors s n : size s < npos ->
   SV.of_cstr s = StdSV.of_cstr s /\ (n <= size s -> SV.of_ptr_n s n = tabulate (nthN s) n).
 Proof. intros H. split; [exact (sv_eq_std_of_cstr s H)|exact (sv_eq_std_of_ptr_n s n)]. Qed.
+
+(** beyond std's precondition: remove_prefix / remove_suffix(n) with n > size() behave like n = size() (tlx clamps) *)
+Theorem remove_prefix_suffix_clamp h n : size h <= n ->
+  SV.remove_prefix h n = SV.remove_prefix h (size h) /\ SV.remove_suffix h n = SV.remove_suffix h (size h).
+Proof.
+  intros Hn. unfold SV.remove_prefix, SV.remove_suffix. cbv zeta.
+  destruct (N.ltb_spec (size h) n) as [Hlt|Hge], (N.ltb_spec (size h) (size h)) as [Habs|_]; try lia.
+  - split; reflexivity.
+  - assert (E : n = size h) by lia. rewrite E. split; reflexivity.
+Qed.
